@@ -4,14 +4,16 @@ CONSTANTS
     MaxAge = 4
     MaxDt = 2
     MaxBDt = 1
-    RestoreKeepsEpisodeStart = TRUE
-    LeaveOKStartsDuration = TRUE
     BatchGaps = {0, 1}
     MaxBatch = 2
+    QCap = 2
+    Variant = {}
 INVARIANTS
     TypeOK
     LevelRule
     EmitIff
     EventCarries
+    NamedDelivery
+    CountWithinBounds
     ImplRefinesRef
 CHECK_DEADLOCK FALSE
